@@ -16,6 +16,12 @@ PROP["lean_modules"] += _SM["C04"]
 PROP["rule"] += " || v1: " + _SR
 PROP["assumptions"] = list(PROP["assumptions"]) + _SA
 
+PROP["jobs"].append({"harness": "h_srcack", "comp": "srcack", "driver": "srcack", "n_quick": 300, "n_thorough": 12000, "timeout": 2400,
+                     "fail_tag": "C04",
+                     "why": "the acks the real connector.Source delivers to the plugin stream (deferred-ack queue, retries, teardown) are not the "
+                            "engine's acks in order without gap or repeat (monitor clause C04:ack-sequence-gap / order), or the trace is not a behaviour of the M3 model"})
+PROP["lean_modules"].append("ConduitModel.Props.C02")
+
 META = {
     "text": 'Lean 4 theorems: the multiAckNacker releases exactly the in-order prefix 0..released-1, each position once, released monotone, for every vote sequence (C04_ma_release_prefix/_next); the tainted loop hands out sub-batches left to right covering the batch exactly once (C04_groups_in_read_order, _strictly_advance). Whole-pass ack order is decided by the C04 monitor (acks = exact prefix of records read; overlapping Source.Ack calls flagged) on every implementation trace incl. real concurrent fan-out with a slow source, and by equality with the model.',
     "note": 'PARTIAL: the composition of these leaf theorems with the task recursion of Worker.doTaskAttempt/doNextTask (whole-pass statement) is validated by equality of event logs against the executable Lean model and by the Lean-defined trace monitor on every implementation trace (serial fan-out orders, real concurrent fan-out, several sources into one shared sink), not proved. v1 (default engine) part: Props/*Stream when merged. Trusted: Lean kernel, factgen, harness/fakes, Go runtime.',
